@@ -78,10 +78,10 @@ def transitions(zone):
     return out
 
 
-def mk_dt(src, zone, wall):
-    naive = datetime(*wall)
+def mk_dt(src, zone, wall, fold=0):
+    naive = datetime(*wall, fold=fold)
     if src == "pytz":
-        return pytz.timezone(zone).localize(naive)
+        return pytz.timezone(zone).localize(naive.replace(fold=0), is_dst=bool(fold))
     if src == "dateutil":
         tz = dateutil.tz.gettz(zone)
         if tz is None:
@@ -111,7 +111,7 @@ def judge(case):
     fails = []
     wall = case["wall"]
     naive = datetime(*wall)
-    dt = mk_dt(src, zone, wall)
+    dt = mk_dt(src, zone, wall, case.get("fold", 0))   # fold=1: the second occurrence of a repeated wall time (PEP 495)
     is_utc = zone == "UTC"
     # an explicit period end one hour later is only well defined away from offset changes (start < end as instants in every
     # provider's reading); next to a transition the duration form is used instead
@@ -269,6 +269,8 @@ def info(case):
     if zone == "UTC":
         classes.append("zone:utc")
     nt = case["shape"] in ("list", "rdate-period", "freebusy")
+    if case.get("fold"):
+        classes.append("fold=1")
     if zone != "UTC":
         if near_transition(zone, case["wall"]):
             classes.append("near-transition")
@@ -307,7 +309,7 @@ def cases(draw):
     provider = draw(st.sampled_from(["zoneinfo", "pytz"]))
     src = draw(st.sampled_from(["zoneinfo", "zoneinfo", "pytz", "pytz", "dateutil"]))
     shape = draw(st.sampled_from(["single", "single", "list", "rdate-period", "freebusy", "utc-prop"]))
-    case = {"provider": provider, "src": src, "zone": zone, "shape": shape, "wall": draw(walls_for(zone))}
+    case = {"provider": provider, "src": src, "zone": zone, "shape": shape, "wall": draw(walls_for(zone)), "fold": draw(st.sampled_from([0, 0, 1]))}
     if shape == "single":
         case["name"] = draw(st.sampled_from(["DTSTART", "DTEND", "DUE", "RECURRENCE-ID"]))
     elif shape == "list":
